@@ -155,7 +155,7 @@ class Env:
             raise GroundTruthMismatch("program ended but the spec history has %d more events" % (len(self.hist) - self.cur))
 
     # ---- running-mode probes (C02)
-    def probe(self):
+    def probe(self, *three_nones):
         ev = self.expect("probe", 0)
         self.checker.check_running(self, ev, "body", sys._getframe(1))
 
